@@ -59,6 +59,8 @@ def families(tier="quick"):
                 continue
             if mod is c12 and "/float64/" in f.key:
                 continue
+            if "/ieee-guards/" in f.key or "/numpy-forms/" in f.key:
+                continue  # abstract IEEE values are not operands of the frame condition; the NumPy forms keep their own frame goals (C03 lane below)
             fams.append(Family(f"{PID}/{f.key}", _wrap(f.fn), defd=False, functions=f.functions, structural=True, hard_s=300))
     for mod in (c03, c17):
         for f in mod.families(tier):
